@@ -131,6 +131,9 @@ class CaseGen:
     def pick_action(self, runner, flat, by_target):
         """index into the model's flat list, guided by the implementation's current state"""
         rng = self.rng
+        hist = getattr(runner, "succeeded", None)
+        if hist and rng.random() < 0.2:
+            return rng.choice(hist)      # retry something that worked before (e.g. before a reset)
         r = rng.random()
         if r < 0.8:
             st = np.asarray(runner.env.current_state.tensor)
@@ -196,6 +199,10 @@ class CaseGen:
             ops.append(op)
             outs.append(out)
             self.note(op, out, flat)
+            if kind in ("step", "gen") and out[0] in (1, 2) and out[1][4][0] and wa[0] in (4, 5):
+                if not hasattr(runner, "succeeded"):
+                    runner.succeeded = []
+                runner.succeeded.append(ai)
         errs = getattr(runner, "last_error", None)
         self.stats["scenario:" + ("random" if name == "random" else "named")] += 1
         self.stats[f"hosts:{len(sd['hosts'])}"] += 1
